@@ -11,6 +11,7 @@ Streams (model `Wpull.Warc` vs the real code in ctx.repo):
             sessions' event methods (see warc_common.py); files read back by an
             independent strict gzip / WARC reader, digests recomputed with hashlib
   client    oracle only: the real HTTP client + recorder over harness/fakenet.py
+  mixed     oracle only: one recorder listening to the real FTP and HTTP clients; fetches that fail at every stage
 """
 import io
 import os
@@ -354,6 +355,9 @@ def replay(ctx, case, kind=None, where=None):
     s = case.get('stream')
     if s == 'scenario':
         stream_recorder(ctx, [case['scenario']], pid=ctx.pid)
+    elif s == 'mixed':
+        from engines import warc_client
+        warc_client.check_mixed(ctx, case['mixed'], ctx.pid)
     elif s == 'client':
         from engines import warc_client
         warc_client.check_exchange(ctx, case['exchange'], ctx.pid)
@@ -379,6 +383,7 @@ def run(ctx):
     stream_recorder(ctx, [wc.gen_scenario(rng) for _ in range(ctx.scale(400, 5000))])
     from engines import warc_client
     warc_client.stream_client(ctx, ctx.scale(200, 3000), PID)
+    warc_client.stream_mixed(ctx, ctx.scale(150, 2000), PID)
 
 
 def search(ctx):
